@@ -221,3 +221,5 @@ func indexOfUser(a string) int {
 	}
 	panic("not a pool address")
 }
+
+func sdkAddr(s string) (sdk.AccAddress, error) { return sdk.AccAddressFromBech32(s) }
